@@ -20,7 +20,7 @@ def make_cases(chk):
     quick = chk.tier == "quick"
     cases = []
     ops = ["compose_f_schema", "compose_f_schema", "compose_f_tree", "apply_func", "elim"]
-    for i in range(220 if quick else 4000):
+    for i in range(220 if quick else 16000):
         # well-scaled predicates only: with coefficients of 1e4..1e5 the LP's vertices miss half-spaces by more than 1e-8, the
         # repair heuristic sometimes fails and the *unchanged* code then leaves Indeterminate nodes / one-armed decisions
         # (measured on seeds 0..4) - that regime is the LP-tolerance carve-out of the property, not a finding
@@ -35,7 +35,7 @@ def make_cases(chk):
         c["kind"] = "pipeline"
         cases.append(c)
     # distilled ReLU-type networks for the region-count clause
-    for i in range(40 if quick else 400):
+    for i in range(40 if quick else 2000):
         n = rng.choice([1, 2, 2, 3])
         w = rng.choice([2, 3]) if quick else rng.choice([2, 3, 4])
         layers = [{"t": "linear", "M": gen.mat(rng, w, n, pzero=0.1), "c": gen.vec(rng, w)}]
